@@ -11,6 +11,7 @@ CONSTANTS
   Depth = 5
   EmitPrograms = FALSE
   SampleK = 1
+  MaxBuf = 16
   OrigMinW = 10
   OrigMaxW = 17
   Mutation = "d1_unchecked_add"
